@@ -2,7 +2,6 @@ package rl
 
 import (
 	"fmt"
-	"os"
 	"path/filepath"
 	"sort"
 	"strings"
@@ -129,14 +128,23 @@ func RunSched(pool *Pool, dir string, c *Case, cacheOverride *bool) (steps []Ste
 	t0 := time.Now()
 	lap := func(i int) { atomic.AddInt64(&Prof[i], int64(time.Since(t0))); t0 = time.Now() }
 	defer lap(5)
-	if err := os.MkdirAll(dir, 0o755); err != nil {
-		return nil, nil, nil, err.Error()
-	}
-	defer os.RemoveAll(dir)
 	w := &World{Dir: dir, Backend: c.Cfg.Backend, Pool: pool}
+	defer w.Cleanup()
+	updated := map[int]bool{}
+	for _, t := range c.Threads {
+		if t.Kind == "e" {
+			updated[t.Path] = true
+		}
+	}
 	disk := map[int]File{}
 	for _, e := range c.Disk {
-		if err := w.Create(e.Path, e.File); err != nil {
+		var err error
+		if w.Backend == "cdb" && pool != nil && e.File.OK && !updated[e.Path] {
+			err = w.Alias(e.Path, e.File)
+		} else {
+			err = w.Create(e.Path, e.File)
+		}
+		if err != nil {
 			return nil, nil, nil, "create: " + err.Error()
 		}
 		disk[e.Path] = e.File
